@@ -29,6 +29,13 @@ Proof. vm_compute. reflexivity. Qed.
 Theorem repo_one_lock_at_a_time : one_lock_at_a_time funcs = true.
 Proof. vm_compute. reflexivity. Qed.
 
+(* no blocking channel send while holding a mutex that the channel's consumer acquires (nor under a
+   mutex on a channel without a translated consumer): Announce.SetBalancer queues on spamCh only
+   after Unlock — defers run LIFO — because spamLoop needs RLock in gratuitous
+   (C20_send_under_lock_deadlocks / C20_send_after_unlock_progress) *)
+Theorem repo_no_blocking_send_under_lock : no_blocking_send_under_lock funcs = true.
+Proof. vm_compute. reflexivity. Qed.
+
 (* the status fetchers, which run outside the Listener mutex, touch only guarded fields of
    their receiver, and they are the functions the programs hand to the status reconcilers *)
 Theorem repo_fetchers_confined :
@@ -50,3 +57,4 @@ Print Assumptions repo_no_escape.
 Print Assumptions repo_race_free.
 Print Assumptions repo_one_lock_at_a_time.
 Print Assumptions repo_fetchers_confined.
+Print Assumptions repo_no_blocking_send_under_lock.
